@@ -33,7 +33,11 @@ class LinguaMakoExtractor(Extractor, MessageExtractor):
             yield from self.process_file(file_)
 
     def process_python(self, code, code_lineno, translator_strings):
-        source = code.getvalue().strip()
+        source = code.getvalue()
+        # blank lines at the head of the code (the one the base class added
+        # included) are dropped below; keep them in the line count
+        code_lineno += source[: len(source) - len(source.lstrip())].count("\n")
+        source = source.strip()
         if source.endswith(":"):
             if source in ("try:", "else:") or source.startswith("except"):
                 source = ""  # Ignore try/except and else
